@@ -947,10 +947,16 @@ pub fn union_whole<S: Src, const N: usize>(s: &mut S) {
     }
     let mut last: Option<P> = None;
     let mut seen_q = 0usize;
+    let mut ended = false;
     let mut k = 0;
     // at most one item per distinct prefix: N = 1 means at most one item
     while k < (if N == 1 { 1 } else { 2 * N }) {
-        if let Some(item) = it.next() {
+        let x = it.next();
+        if x.is_none() {
+            ended = true;
+        }
+        if let Some(item) = x {
+            check!(s, !ended, "C05:no item after union returned None");
             let pp: *const P = item.prefix();
             let p = *item.prefix();
             if let Some(lp) = last {
